@@ -71,6 +71,24 @@ def roots(tier, seed):
                                     c2["scribble"] = True  # user functions overwrite their argument
                                     c2["explore"] = 0
                                     out.append(c2)
+    # variables of magnitude 2^27 and a final radius far below their spacing: trial steps vanish in rounding and the
+    # same point is evaluated several times in a row - each of them is still one call of the objective
+    for n in (1, 2):
+        for cons in ["none", "ball_le"]:
+            for hist in (False, True):
+                off = 2.0 ** 27
+                case = alpha.base_case(n, ("free",) * n, "in", "quad", cons,
+                                       options={"radius_init": 1.0, "radius_final": 2.0 ** -34, "maxfev": 120,
+                                                "store_history": hist})
+                case["x0"] = [off] * n
+                case["obj"] = {"kind": "quad", "a": [1.0, 2.0][:n], "c": [off + 0.75, off - 1.25][:n]}
+                for c in case["cons"]:
+                    if c["kind"] == "nl":
+                        c["funs"][0]["c"] = [off + 0.5] * n
+                        c["funs"][0]["r2"] = 4.0
+                case["tag"]["special"] = "huge-offset"
+                case["explore"] = 0
+                out.append(case)
     return alpha.permute(out, seed)
 
 
@@ -154,7 +172,7 @@ def check(rec):
 
 def run_case(case):
     stats = {"runs": 0, "evals": 0, "user_calls": 0, "crashed": 0, "main_evals": 0,
-             "soc_evals": 0, "geo_evals": 0, "deviated_runs": 0}
+             "soc_evals": 0, "geo_evals": 0, "deviated_runs": 0, "repeated_points": 0}
     viol = []
     digests = []
     nontrivial = []
@@ -171,6 +189,8 @@ def run_case(case):
         stats["geo_evals"] += kinds.count("geo")
         if rec.exc is not None:
             stats["crashed"] += 1
+        tops = [p for p in rec.pcalls if p["nested_in"] is None]
+        stats["repeated_points"] += sum(1 for a, b in zip(tops, tops[1:]) if e1.same_bits(a["x"], b["x"]))
         d = e1.digest(rec)
         digests.append(d)
         if any(k in ("tr", "soc", "geo") for k in kinds):
@@ -191,6 +211,8 @@ def coverage(agg, tier, roots):
     s = agg.stats
     if s.get("main_evals", 0) == 0:
         herr.append("no main-loop evaluation was explored")
+    if not s.get("repeated_points"):
+        herr.append("no run evaluated the same point twice in a row")
     if s.get("runs", 0) and s.get("crashed", 0) == s.get("runs", 0):
         herr.append("every run crashed")
     cov = {
